@@ -57,10 +57,12 @@ CHECKS = [
           "of unity), hence every solution of the normal equations of constant responses has the constant as fitted value at every "
           "observation of positive weight, for every penalty weight; AFFINE FUNCTIONS likewise for every penalty order >= 2 (Greville "
           "identity for Cox-de Boor B-splines, affine Greville coefficients on equally spaced knots, differences of order >= 2 "
-          "annihilate affine sequences). Tie: PSplines.fit/predict in 1-D, 2-D, 3-D with independent n_segments/degree per dimension: "
+          "annihilate affine sequences); QUADRATICS for every penalty order >= 3 and spline degree >= 2 (quadratic case of Marsden's identity, "
+          "quadratic coefficient sequences on equally spaced knots, vanishing second moment of the difference coefficients). "
+          "Tie: PSplines.fit/predict in 1-D, 2-D, 3-D with independent n_segments/degree per dimension: "
           "beta_hat, y_hat, hat-matrix diagonal and predictions are verified as certificates against the MODEL's normal equations (Cox-de Boor "
           "basis, Kronecker rows, difference penalties) exactly in Q.",
-  "note": STD_NOTE + " Partial: polynomial reproduction is proved for degrees 0 and 1 (1-D); degree 2 needs the quadratic Marsden identity (not proved; monitored), as does the n-D case. The solver's output is checked as a "
+  "note": STD_NOTE + " Partial: polynomial reproduction is proved in 1-D for every degree below the penalty order (orders 1..3); the n-D tensor-product case is monitored on the implementation, not proved. The solver's output is checked as a "
           "certificate (residual), not recomputed; leverage certificates are exact for all observations in 1-D and for a sample in 2-D/3-D "
           "(all are compared with a NumPy reference)."},
  {"id": "C06",
